@@ -14,8 +14,11 @@ use futures_util::stream::Stream;
 use futures_util::task::noop_waker;
 use hickory_net::proto::op::SerialMessage;
 use hickory_net::runtime::{DnsTcpStream, TokioTime};
-use hickory_net::tcp::TcpStream;
+use hickory_net::tcp::{TcpClientStream, TcpStream};
+use hickory_net::NetError;
 use hickory_net::xfer::DnsStreamHandle;
+use hickory_server::server::TimeoutStream;
+use std::time::Duration;
 use vph::*;
 
 #[derive(Clone, Debug)]
@@ -32,10 +35,19 @@ enum WEv {
     Err,
 }
 
+#[derive(Clone, Debug)]
+enum FEv {
+    Ok,
+    Pend,
+    Err,
+}
+
 #[derive(Default)]
 struct Shared {
     rscript: VecDeque<REv>,
     wscript: VecDeque<WEv>,
+    /// None: poll_flush is always ready (the read-only / write-only families)
+    fscript: Option<VecDeque<FEv>>,
     written: Vec<u8>,
     starved: bool,
     read_calls: usize,
@@ -88,7 +100,7 @@ impl Sock {
                 Poll::Pending
             }
             Some(WEv::Pend) => Poll::Pending,
-            Some(WEv::Err) => Poll::Ready(Err(io::Error::new(io::ErrorKind::ConnectionReset, "scripted"))),
+            Some(WEv::Err) => Poll::Ready(Err(io::Error::new(io::ErrorKind::ConnectionReset, "scripted-w"))),
             Some(WEv::Acc(n)) => {
                 let n = n.min(offered.len());
                 s.written.extend_from_slice(&offered[..n]);
@@ -111,7 +123,20 @@ impl AsyncWrite for Sock {
         self.write_some(&all)
     }
     fn poll_flush(self: Pin<&mut Self>, _cx: &mut Context<'_>) -> Poll<io::Result<()>> {
-        Poll::Ready(Ok(()))
+        let mut s = self.0.lock().unwrap();
+        let ev = match s.fscript.as_mut() {
+            None => return Poll::Ready(Ok(())),
+            Some(q) => q.pop_front(),
+        };
+        match ev {
+            None => {
+                s.starved = true;
+                Poll::Pending
+            }
+            Some(FEv::Ok) => Poll::Ready(Ok(())),
+            Some(FEv::Pend) => Poll::Pending,
+            Some(FEv::Err) => Poll::Ready(Err(io::Error::new(io::ErrorKind::ConnectionAborted, "scripted-f"))),
+        }
     }
     fn poll_close(self: Pin<&mut Self>, _cx: &mut Context<'_>) -> Poll<io::Result<()>> {
         Poll::Ready(Ok(()))
@@ -511,6 +536,472 @@ fn write_case(seed: u64, index: u64, r: &mut Rng) -> CaseOut {
     }
 }
 
+// ---------------------------------------------------------------------------------
+// Combined family: ONE TcpStream (optionally wrapped in TcpClientStream) polled a fixed
+// number of times; before poll i the batch arr[i] is pushed into the outbound queue;
+// write / flush / read results come from three scripts.
+// ---------------------------------------------------------------------------------
+
+fn classify(e: &io::Error) -> u8 {
+    match (e.kind(), e.to_string().as_str()) {
+        (io::ErrorKind::BrokenPipe, "closed while reading length") => 1,
+        (io::ErrorKind::BrokenPipe, "closed while reading message") => 2,
+        (io::ErrorKind::InvalidData, _) => 4,
+        (_, "scripted-w") => 5,
+        (_, "scripted-f") => 6,
+        _ => 3,
+    }
+}
+
+type Batch = Vec<(bool, Vec<u8>)>;
+
+fn run_comb(arr: &[Batch], ws: &[WEv], fs: &[FEv], rs: &[REv], client: bool) -> Result<Obs, String> {
+    let (arr, ws, fs, rs) = (arr.to_vec(), ws.to_vec(), fs.to_vec(), rs.to_vec());
+    guard(move || {
+        let shared = Arc::new(Mutex::new(Shared {
+            rscript: rs.into(),
+            wscript: ws.into(),
+            fscript: Some(fs.into()),
+            ..Default::default()
+        }));
+        let peer: SocketAddr = "192.0.2.1:53".parse().unwrap();
+        let other: SocketAddr = "198.51.100.7:53".parse().unwrap();
+        let (stream, mut handle) = TcpStream::from_stream(Sock(shared.clone()), peer);
+        let mut handle_other = handle.with_remote_addr(other);
+        let waker = noop_waker();
+        let mut cx = Context::from_waker(&waker);
+        // Ok(bytes, source address is the peer) / Err(class)
+        let mut poll_one: Box<dyn FnMut(&mut Context<'_>) -> Poll<Option<Result<(Vec<u8>, bool), u8>>>> = if client {
+            let mut s = TcpClientStream::from_stream(stream);
+            Box::new(move |cx| match Pin::new(&mut s).poll_next(cx) {
+                Poll::Pending => Poll::Pending,
+                Poll::Ready(None) => Poll::Ready(None),
+                Poll::Ready(Some(Ok(m))) => Poll::Ready(Some(Ok((m.bytes().to_vec(), m.addr() == peer)))),
+                Poll::Ready(Some(Err(NetError::Io(e)))) => Poll::Ready(Some(Err(classify(&e)))),
+                Poll::Ready(Some(Err(_))) => Poll::Ready(Some(Err(9))),
+            })
+        } else {
+            let mut s = stream;
+            Box::new(move |cx| match Pin::new(&mut s).poll_next(cx) {
+                Poll::Pending => Poll::Pending,
+                Poll::Ready(None) => Poll::Ready(None),
+                Poll::Ready(Some(Ok(m))) => Poll::Ready(Some(Ok((m.bytes().to_vec(), m.addr() == peer)))),
+                Poll::Ready(Some(Err(e))) => Poll::Ready(Some(Err(classify(&e)))),
+            })
+        };
+        let mut items = vec![];
+        let mut fin = 2u8;
+        let mut polls = 0usize;
+        for batch in &arr {
+            for (ok, m) in batch {
+                let h = if *ok { &mut handle } else { &mut handle_other };
+                h.send(SerialMessage::new(m.clone(), peer)).unwrap();
+            }
+            polls += 1;
+            match poll_one(&mut cx) {
+                Poll::Ready(Some(Ok((m, from_peer)))) => {
+                    if !from_peer {
+                        panic!("message source address is not the peer");
+                    }
+                    items.push((0u8, m))
+                }
+                Poll::Ready(Some(Err(t))) => {
+                    items.push((t, vec![]));
+                    if t <= 3 {
+                        fin = 1;
+                        break;
+                    }
+                }
+                Poll::Ready(None) => {
+                    fin = 0;
+                    break;
+                }
+                Poll::Pending => {}
+            }
+        }
+        let written = shared.lock().unwrap().written.clone();
+        Obs { items, fin, written, polls }
+    })
+}
+
+fn comb_case(seed: u64, index: u64, r: &mut Rng, client: bool) -> CaseOut {
+    // outbound messages
+    let n_out = r.below(4) as usize;
+    let mut out_msgs: Vec<(bool, Vec<u8>)> = vec![];
+    let mismatch_on = r.chance(1, 3);
+    for _ in 0..n_out {
+        let len = match r.below(8) {
+            0 => *r.pick(&[0usize, 1, 2, 255, 256]),
+            _ => r.range(1, 24) as usize,
+        };
+        out_msgs.push((!(mismatch_on && r.chance(1, 3)), r.bytes(len)));
+    }
+    let expected_wire: Vec<u8> = out_msgs.iter().filter(|(ok, _)| *ok).flat_map(|(_, m)| frame(m)).collect();
+    // inbound stream
+    let in_msgs: Vec<Vec<u8>> = if r.chance(1, 5) { vec![] } else { gen_msgs(r).into_iter().map(|m| if m.len() > 60 { m[..60].to_vec() } else { m }).collect() };
+    let mut in_stream: Vec<u8> = in_msgs.iter().flat_map(|m| frame(m)).collect();
+    let mut in_cut = false;
+    if !in_stream.is_empty() && r.chance(1, 6) {
+        let keep = r.range(0, in_stream.len() as u64 - 1) as usize;
+        in_stream.truncate(keep);
+        in_cut = true;
+    }
+    let chunks = chunk(r, &in_stream);
+    let mut rs = interleave_pending(r, chunks);
+    match r.below(10) {
+        0..=6 => rs.push(REv::Eof),
+        7 => rs.push(REv::Err),
+        _ => {}
+    }
+    // write script
+    let wstyle = r.below(4);
+    let wp = *r.pick(&[0u64, 1, 2]);
+    let mut ws = vec![];
+    let w_calls = match r.below(5) {
+        0 => r.range(0, expected_wire.len() as u64 + 1) as usize,
+        _ => expected_wire.len() + 2,
+    };
+    let mut acc = 0;
+    while acc < w_calls {
+        if wp > 0 && r.chance(wp, 6) {
+            ws.push(WEv::Pend);
+            continue;
+        }
+        if r.chance(1, 60) {
+            ws.push(WEv::Err);
+            continue;
+        }
+        let n = match wstyle {
+            0 => 1,
+            1 => r.range(1, 3) as usize,
+            2 => r.range(1, 64) as usize,
+            _ => r.range(0, 400) as usize,
+        };
+        ws.push(WEv::Acc(n));
+        acc += 1;
+    }
+    // flush script
+    let fp = *r.pick(&[0u64, 2, 3]);
+    let mut fs = vec![];
+    let f_calls = if r.chance(1, 6) { r.below(n_out as u64 + 1) as usize } else { n_out + 1 };
+    let mut oks = 0;
+    while oks < f_calls {
+        if fp > 0 && r.chance(fp, 6) {
+            fs.push(FEv::Pend);
+        } else if r.chance(1, 25) {
+            fs.push(FEv::Err);
+        } else {
+            fs.push(FEv::Ok);
+            oks += 1;
+        }
+    }
+    // polls and arrival times
+    let events = rs.len() + ws.len() + fs.len();
+    let n_polls = match r.below(4) {
+        0 => r.range(1, events as u64 + 2) as usize,
+        _ => events + 3,
+    }
+    .min(120);
+    let mut arr: Vec<Batch> = vec![vec![]; n_polls];
+    let late = r.chance(1, 2);
+    for m in out_msgs.iter() {
+        let at = if late { r.below(n_polls as u64) as usize } else { r.below(3u64.min(n_polls as u64)) as usize };
+        arr[at].push(m.clone());
+    }
+    // queue order = arrival order
+    let queued: Vec<(bool, Vec<u8>)> = arr.iter().flatten().cloned().collect();
+    let expected_wire: Vec<u8> = queued.iter().filter(|(ok, _)| *ok).flat_map(|(_, m)| frame(m)).collect();
+    let n_mismatch = queued.iter().filter(|(ok, _)| !*ok).count();
+
+    let has_wpend = ws.iter().any(|e| matches!(e, WEv::Pend));
+    let has_werr = ws.iter().any(|e| matches!(e, WEv::Err));
+    let has_fpend = fs.iter().any(|e| matches!(e, FEv::Pend));
+    let has_ferr = fs.iter().any(|e| matches!(e, FEv::Err));
+    let base = if n_mismatch > 0 {
+        "mismatch"
+    } else if has_ferr {
+        "flush-err"
+    } else if has_werr {
+        "write-err"
+    } else if has_fpend {
+        "flush-pending"
+    } else if has_wpend {
+        "write-pending"
+    } else if queued.is_empty() {
+        "read-only"
+    } else {
+        "plain"
+    };
+    let kind = format!("{}-{}", if client { "client" } else { "comb" }, base);
+
+    let obs = run_comb(&arr, &ws, &fs, &rs, client);
+    let arr_text = arr
+        .iter()
+        .map(|b| b.iter().map(|(ok, m)| format!("{}{}", if *ok { "" } else { "!" }, hex(m))).collect::<Vec<_>>().join("+"))
+        .collect::<Vec<_>>()
+        .join("/");
+    let ftext = fs.iter().map(|e| match e { FEv::Ok => "O", FEv::Pend => "P", FEv::Err => "E" }).collect::<String>();
+    let text_in = format!(
+        "C client={} arrivals={} w={} f={} r={}",
+        client as u8,
+        arr_text,
+        wscript_text(&ws),
+        ftext,
+        rscript_text(&rs)
+    );
+    let arr_coq = coq_list(arr.iter().map(|b| coq_list(b.iter().map(|(ok, m)| format!("({}, {})", if *ok { "true" } else { "false" }, coq_pb(m))))));
+    let fs_coq = coq_list(fs.iter().map(|e| match e { FEv::Ok => "FOk", FEv::Pend => "FPend", FEv::Err => "FErr" }.to_string()));
+    let (coq, obs_text, oracle_fail) = match &obs {
+        Ok(o) => {
+            let items = coq_list(o.items.iter().map(|(t, b)| format!("({t}, {})", coq_pb(b))));
+            let coq = format!(
+                "CComb {} {} {} {} {} {} {}",
+                arr_coq,
+                wscript_coq(&ws),
+                fs_coq,
+                rscript_coq(&rs),
+                items,
+                o.fin,
+                coq_pb(&o.written)
+            );
+            let otext = format!(
+                "items={} fin={} written={} polls={}",
+                o.items.iter().map(|(t, b)| format!("{t}:{}", hex(b))).collect::<Vec<_>>().join("|"),
+                o.fin,
+                hex(&o.written),
+                o.polls
+            );
+            // the property, directly on the implementation
+            let got_msgs: Vec<&Vec<u8>> = o.items.iter().filter(|(t, _)| *t == 0).map(|(_, b)| b).collect();
+            let n_mm = o.items.iter().filter(|(t, _)| *t == 4).count();
+            let mut fail = None;
+            if !expected_wire.starts_with(&o.written) {
+                fail = Some(format!("bytes on the wire are not a prefix of the framed matching messages in queue order: {otext}"));
+            } else if got_msgs.len() > in_msgs.len() || got_msgs.iter().zip(in_msgs.iter()).any(|(a, b)| *a != b) {
+                fail = Some(format!("delivered messages are not a prefix of the messages in the inbound byte stream: {otext}"));
+            } else if o.fin == 0 && !in_cut && got_msgs.len() != in_msgs.len() {
+                fail = Some(format!("clean end but only {} of {} inbound messages delivered", got_msgs.len(), in_msgs.len()));
+            } else if o.fin == 0 && in_cut && in_stream.len() != in_msgs.iter().take(got_msgs.len()).map(|m| m.len() + 2).sum::<usize>() {
+                fail = Some("clean end inside a frame".to_string());
+            } else if n_mm > n_mismatch {
+                fail = Some(format!("{n_mm} mismatched-peer errors for {n_mismatch} mismatched messages"));
+            }
+            (coq, otext, fail)
+        }
+        Err(p) => (
+            format!("CComb {} {} {} {} [(9, (PB 0 []))] 9 (PB 0 [])", arr_coq, wscript_coq(&ws), fs_coq, rscript_coq(&rs)),
+            format!("PANIC {p}"),
+            Some(format!("implementation panicked: {p}")),
+        ),
+    };
+    CaseOut {
+        index,
+        coq,
+        text: format!("seed={seed} index={index} {kind} {text_in} => {obs_text}"),
+        key: text_in,
+        nontrivial: !queued.is_empty() && rs.iter().filter(|e| matches!(e, REv::Data(_))).count() >= 1,
+        kind,
+        oracle_fail,
+        known: None,
+    }
+}
+
+// ---------------------------------------------------------------------------------
+// TimeoutStream family: the real hickory_server::server::TimeoutStream over a scripted
+// inner stream, under a paused tokio clock (current-thread runtime).  Before poll i the
+// clock advances by dt_i milliseconds.
+// ---------------------------------------------------------------------------------
+
+#[derive(Clone, Debug)]
+enum IEv {
+    Pend,
+    Item(bool, u64),
+    End,
+}
+
+struct Inner(VecDeque<IEv>);
+
+impl Stream for Inner {
+    type Item = io::Result<u64>;
+    fn poll_next(mut self: Pin<&mut Self>, _cx: &mut Context<'_>) -> Poll<Option<Self::Item>> {
+        match self.0.pop_front() {
+            None | Some(IEv::Pend) => Poll::Pending,
+            Some(IEv::Item(true, id)) => Poll::Ready(Some(Ok(id))),
+            Some(IEv::Item(false, id)) => Poll::Ready(Some(Err(io::Error::new(io::ErrorKind::Other, id.to_string())))),
+            Some(IEv::End) => Poll::Ready(None),
+        }
+    }
+}
+
+/// items: (0, id) ok item, (1, id) inner error item, (2, 0) timeout error; fin 0 end, 1 timed out, 2 script used up
+fn run_timeout(d_ms: u64, script: &[(u64, IEv)]) -> Result<(Vec<(u8, u64)>, u8), String> {
+    let script = script.to_vec();
+    guard(move || {
+        let rt = tokio::runtime::Builder::new_current_thread().enable_time().start_paused(true).build().unwrap();
+        rt.block_on(async move {
+            let inner = Inner(script.iter().map(|(_, e)| e.clone()).collect());
+            let mut ts = TimeoutStream::new(inner, Duration::from_millis(d_ms));
+            let mut items = vec![];
+            let mut fin = 2u8;
+            for (dt, _) in &script {
+                if *dt > 0 {
+                    tokio::time::advance(Duration::from_millis(*dt)).await;
+                }
+                let r = futures_util::future::poll_fn(|cx| Poll::Ready(Pin::new(&mut ts).poll_next(cx))).await;
+                match r {
+                    Poll::Pending => {}
+                    Poll::Ready(None) => {
+                        fin = 0;
+                        break;
+                    }
+                    Poll::Ready(Some(Ok(id))) => items.push((0u8, id)),
+                    Poll::Ready(Some(Err(e))) => {
+                        if e.kind() == io::ErrorKind::TimedOut {
+                            items.push((2, 0));
+                            fin = 1;
+                            break;
+                        }
+                        items.push((1, e.to_string().parse().unwrap()));
+                    }
+                }
+            }
+            (items, fin)
+        })
+    })
+}
+
+fn timeout_case(seed: u64, index: u64, r: &mut Rng) -> CaseOut {
+    let d = *r.pick(&[0u64, 1, 5, 10, 10, 100]);
+    let n = r.range(1, 10) as usize;
+    let quiet_bias = r.chance(1, 2);
+    let mut script = vec![];
+    let mut next_id = 1u64;
+    for _ in 0..n {
+        let dt = if quiet_bias && d > 1 {
+            r.below((d / 3).max(1))
+        } else {
+            match r.below(6) {
+                0 => 0,
+                1 => 1,
+                2 => d.saturating_sub(1),
+                3 => d,
+                4 => d + 1,
+                _ => r.below(2 * d + 2),
+            }
+        };
+        let e = match r.below(10) {
+            0..=4 => IEv::Pend,
+            5..=8 => {
+                next_id += 1;
+                IEv::Item(r.chance(4, 5), next_id)
+            }
+            _ => IEv::End,
+        };
+        let end = matches!(e, IEv::End);
+        script.push((dt, e));
+        if end {
+            break;
+        }
+    }
+    // independent expectation: time since the timer was armed, in the property's own terms
+    let mut acc: Option<u64> = None;
+    let mut exp_items: Vec<(u8, u64)> = vec![];
+    let mut exp_fin = 2u8;
+    for (dt, e) in &script {
+        let a = match acc {
+            None => 0,
+            Some(a) => a + dt,
+        };
+        match e {
+            IEv::Pend => {
+                if d > 0 && a >= d {
+                    exp_items.push((2, 0));
+                    exp_fin = 1;
+                    break;
+                }
+                acc = Some(a);
+            }
+            IEv::Item(ok, id) => {
+                exp_items.push((if *ok { 0 } else { 1 }, *id));
+                acc = Some(0);
+            }
+            IEv::End => {
+                exp_fin = 0;
+                break;
+            }
+        }
+    }
+    let kind = if d == 0 {
+        "timeout-zero-duration"
+    } else if exp_fin == 1 {
+        "timeout-expires"
+    } else {
+        "timeout-quiet"
+    };
+    let text_in = format!(
+        "T d={} script={}",
+        d,
+        script
+            .iter()
+            .map(|(dt, e)| format!(
+                "+{}:{}",
+                dt,
+                match e {
+                    IEv::Pend => "P".to_string(),
+                    IEv::Item(ok, id) => format!("{}{}", if *ok { "ok" } else { "err" }, id),
+                    IEv::End => "END".to_string(),
+                }
+            ))
+            .collect::<Vec<_>>()
+            .join(",")
+    );
+    let script_coq = coq_list(script.iter().map(|(dt, e)| {
+        format!(
+            "({}, {})",
+            dt,
+            match e {
+                IEv::Pend => "IPend".to_string(),
+                IEv::Item(ok, id) => format!("IItem {} {}", ok, id),
+                IEv::End => "IEnd".to_string(),
+            }
+        )
+    }));
+    let obs = run_timeout(d, &script);
+    let (coq, obs_text, oracle_fail) = match &obs {
+        Ok((items, fin)) => {
+            let coq = format!(
+                "CTimeout {} {} {} {}",
+                d,
+                script_coq,
+                coq_list(items.iter().map(|(t, id)| format!("({t}, {id})"))),
+                fin
+            );
+            let otext = format!("items={:?} fin={}", items, fin);
+            let fail = if *items != exp_items || *fin != exp_fin {
+                Some(format!("TimeoutStream: expected items={:?} fin={}, implementation gave {}", exp_items, exp_fin, otext))
+            } else {
+                None
+            };
+            (coq, otext, fail)
+        }
+        Err(p) => (
+            format!("CTimeout {} {} [(9, 9)] 9", d, script_coq),
+            format!("PANIC {p}"),
+            Some(format!("implementation panicked: {p}")),
+        ),
+    };
+    CaseOut {
+        index,
+        coq,
+        text: format!("seed={seed} index={index} {kind} {text_in} => {obs_text}"),
+        key: text_in,
+        nontrivial: script.len() >= 2,
+        kind: kind.to_string(),
+        oracle_fail,
+        known: None,
+    }
+}
+
 /// index space: [0, EXH) = all compositions of fixed small streams; then random cases,
 /// even = read, odd = write
 const EXH_STREAMS: &[&[&[u8]]] = &[&[&[0xaa]], &[&[1, 2, 3]], &[&[9], &[8, 7]], &[&[5], &[6], &[7]], &[&[1, 2, 3, 4, 5, 6, 7, 8, 9, 10, 11]]];
@@ -539,10 +1030,12 @@ fn case(seed: u64, index: u64, exhaustive_on: bool) -> CaseOut {
             i -= c;
         }
     }
-    if index % 2 == 0 {
-        read_case(seed, index, &mut r, None)
-    } else {
-        write_case(seed, index, &mut r)
+    match index % 5 {
+        0 => read_case(seed, index, &mut r, None),
+        1 => write_case(seed, index, &mut r),
+        2 => comb_case(seed, index, &mut r, false),
+        3 => comb_case(seed, index, &mut r, true),
+        _ => timeout_case(seed, index, &mut r),
     }
 }
 
@@ -580,7 +1073,7 @@ fn main() {
         "C17",
         &args,
         &cases,
-        "read cases: 1..3 messages (lengths from {1,2,3,255,256,300} or 1..40) framed, optionally cut inside a frame / followed by a zero-length frame / replaced by garbage, chunked by 4 size distributions with Pending steps, ended by EOF / error / empty read / starvation; plus all 2^(n-1) compositions of 5 fixed small streams (sampled in quick, complete in thorough); write cases: same messages, scripts of WAcc n / Pending / error. Non-trivial = at least two data-carrying socket calls; distinct by (messages, script).",
+        "read cases: 1..3 messages (lengths from {1,2,3,255,256,300} or 1..40) framed, optionally cut inside a frame / followed by a zero-length frame / replaced by garbage, chunked by 4 size distributions with Pending steps, ended by EOF / error / empty read / starvation; plus all 2^(n-1) compositions of 5 fixed small streams (sampled in quick, complete in thorough); write cases: same messages, scripts of WAcc n / Pending / error; combined cases (comb-* on TcpStream, client-* through TcpClientStream): 0..3 outbound messages (lengths 0..256, destination matching the peer or not) arriving in scripted batches before each poll, write script (WAcc n incl. 0 / Pending / error), flush script (Ok / Pending / error), read script as in the read cases, a fixed number of polls; timeout cases: the real TimeoutStream (duration 0/1/5/10/100 ms) over a scripted inner stream (Pending / Ok item / Err item / end) under a paused tokio clock advanced by scripted amounts before each poll. Non-trivial = at least two data-carrying socket calls; distinct by (messages, script).",
         serde_json::json!({"exhaustive_family_size": exh_count()}),
     );
 }
